@@ -12,7 +12,10 @@ G: every transition is printed as a program with the level-A prediction after ev
    complete_with(), with ok_lvl: / err_lvl: on Ok and Err results, new_span!, SpanGuard::new,
    guards finished by drop / complete / complete_with, real panics unwinding through sync
    span bodies and async polls; incoming ids typed / &str hex / integer / SpanCtxt / Display-
-   captured hex / owned String / owned typed value) on a Runtime with recording emitter, scripted filter,
+   captured hex / owned String / owned typed value; span nodes whose ids are generated, all
+   explicit (str / integers / typed / references / Options of them), drawn by the program from the
+   runtime's random source (Rng::fill / gen_u128 / gen_u64 / TraceId::random through the wrapper
+   form of the source), taken from SpanCtxt::new_root, or explicit in part (None = not given)) on a Runtime with recording emitter, scripted filter,
    ThreadLocalCtxt, counter clock and counter rng - and compares, after every step, the
    records that reached the emitter (kind, trace_id, span_id, span_parent) and
    SpanCtxt::current on every thread with the prediction, ids up to a bijection.
@@ -41,6 +44,8 @@ def run(ctx):
             {"cfg": "Span_quick2.cfg", "workers": 4, "actions": ACTIONS + ["Incoming"]},
             {"cfg": "Span_quick3.cfg", "workers": 4, "actions": ACTIONS + ["Incoming"]},
             {"cfg": "Span_quick4.cfg", "workers": 4, "actions": ACTIONS + TASKS + LAZY},
+            # where ids come from: generated / drawn by hand from the random source / new_root / partly explicit
+            {"cfg": "Span_quick5.cfg", "workers": 4, "actions": ACTIONS + ["Incoming"]},
         ]
     else:
         configs = [
@@ -50,6 +55,7 @@ def run(ctx):
             {"cfg": "Span_thorough_r1.cfg", "workers": 6, "actions": ACTIONS + TASKS + LAZY + ["Incoming"]},
             {"cfg": "Span_thorough_r2.cfg", "workers": 6, "actions": ACTIONS + ["Incoming"]},
             {"cfg": "Span_thorough_r3.cfg", "workers": 6, "actions": ACTIONS + TASKS + LAZY + ["Incoming"]},
+            {"cfg": "Span_thorough_r4.cfg", "workers": 6, "actions": ACTIONS + ["Incoming"]},
             {"cfg": "Span_thorough_sim.cfg", "workers": 4, "simulate": (20000, 18)},
         ]
     if not ctx.quick and ctx.replay_case() is None:
@@ -70,8 +76,9 @@ def run(ctx):
                             harness_args=forms_arg)
     ctx.assumptions += [
         "cancellation: a started, suspended async span dropped in its parent's frame, elsewhere in its own trace tree, or where no span is ambient (a span cancelled inside an unrelated trace is two trees: left out); level A: one event with its own id, its parent, its tree's trace id; the code uses the ambient ids there (open finding F29, classified by its own signature; any other wrong id or event count on that path is a violation)",
-        "context forms (value, &C, Option<C>, Box<C>, Arc<C>, Box<dyn ErasedCtxt + Send + Sync>, the ambient runtime of emit::setup()..init_slot): every program runs through one form, the program number rotates through them; not every program through every form",
+        "context forms (value, &C, Option<C>, Box<C>, Arc<C>, Box<dyn ErasedCtxt + Send + Sync>, the ambient runtime of emit::setup()..init_slot, and a third-party stacking context written on the public Ctxt trait with the default open_push / open_disabled - its current properties list inner pairs first and the shadowed outer ones after them): every program runs through one form, the program number rotates through them; not every program through every form",
         "the random source yields no zero and no repeat (the statement's condition); ids are compared up to a bijection, so the draw order is free",
+        "id sources (ExplicitKinds): an explicit id given as None counts as not given (the generated id stands); ids the program draws itself from the runtime's source must be present and distinct from every id in use, like generated ones",
         "span guards are moved into the closure / async block of their frame, as the documentation of SpanGuard::new requires",
         "a panic is caught below everything the thread has entered (one catch level per thread); the level / error of the record a span emits while unwinding is C05's; no root frames between spans",
         "incoming ids are pushed outside any span (at the edge of the service): trace id + span id, a trace id alone (spans join it, no parent), a span id alone (spans take it as parent and start their own trace)",
